@@ -3,6 +3,7 @@ package props
 import (
 	"fmt"
 	"net/url"
+	"os"
 	"strings"
 
 	"github.com/la5nta/wl2k-go/transport"
@@ -171,6 +172,9 @@ var c19Hook func(r *core.Run) core.Coverage // set by the govs-backed registry p
 func C19(args []string) {
 	r := core.Begin("C19", "model_checking", args)
 	if p := replayArg(args); p != "" {
+		if b, _ := os.ReadFile(p); strings.Contains(string(b), `"choices"`) {
+			ExecGovs(append([]string{"C19"}, args...)) // a registry schedule: replayed by the govs binary
+		}
 		var f struct {
 			Case c19Tuple `json:"case"`
 		}
@@ -233,10 +237,18 @@ func C19(args []string) {
 		"rule":                          "component tuples composed with net/url's own escaping and parsed by the real ParseURL (distinct tuples); raw strings up to the length bound over a 12-symbol alphabet for the never-panics clause",
 		"tuples":                        len(tuples), "raw_strings": rawCount, "raw_max_len": maxLen,
 	}
-	if c19Hook != nil {
-		for k, v := range c19Hook(r) {
-			cov[k] = v
-		}
+	// registry / dispatch under concurrency: the govs binary explores all interleavings
+	bin := BuildGovs()
+	if died, kind, tail := r.RunForeign(bin, "C19", nil, 600e9); died {
+		core.Infra("C19 registry part failed (%s): %s", kind, core.Trunc(tail, 1500))
+	}
+	for k, v := range r.Added() {
+		cov[k] = v
+	}
+	if n, ok := cov["registry_schedules"].(int64); ok {
+		cov["states"] = cov["states"].(int64) + r.Added()["registry_states"]
+		cov["transitions"] = cov["transitions"].(int64) + r.Added()["registry_visible_steps"]
+		_ = n
 	}
 	r.Finish(cov, []string{"URL text is composed by net/url (trusted) from the tuple", "registry/dispatch under concurrency is explored by the govs part (see registry_* keys) when present"})
 }
